@@ -118,11 +118,98 @@ def check_op(inp):
     return None
 
 
-CHECKS = {'reach': check_op, 'reverse': check_op, 'subgraph': check_op, 'clone': check_op}
+def check_history(inp):
+    """Every reach / reverse / subgraph / clone answer along an add_node/add_edge/query history on ONE
+    graph object is exact for the graph as it is at that moment, and no query changes it."""
+    from .. import ghist
+    r = ghist.run(inp)
+    if r is None:
+        return None
+    k, what, exp, got = r
+    return Failure('history', inp, exp, got, 'step %d (%r): %s' % (k, inp['ops'][k], what))
+
+
+CHECKS = {'reach': check_op, 'reverse': check_op, 'subgraph': check_op, 'clone': check_op,
+          'history': check_history}
 
 
 def replay(ctx, rec):
-    return check_op(rec['input'])
+    return CHECKS[rec['check']](rec['input'])
+
+
+def history_shard(st, shard, nshards, payload):
+    from .. import ghist
+    idx = 0
+    for (n, step) in payload['scopes']:
+        subsets = [list(X) for X in G.all_subsets(range(n))]
+        for mask in range(0, 1 << (n * n), step):
+            edges = G.edges_of_mask(n, mask)
+            for order in range(4):
+                edits = ghist.construction(n, mask, order)
+                for variant in range(3):
+                    idx += 1
+                    if idx % nshards != shard:
+                        continue
+
+                    def q(i, v=variant, m=mask):
+                        X = subsets[(i * 5 + m + v) % len(subsets)]
+                        Y = subsets[(i * 3 + m // 7 + v) % len(subsets)]
+                        if v == 0:
+                            return [['reach', X], ['reverse'], ['subgraph', Y], ['clone']]
+                        if v == 1:
+                            return [[['reach', X]], [['reverse']], [['subgraph', Y]], [['clone']], [['fork']]][i % 5]
+                        return [['reverse'], ['reach', Y]] if i % 2 else [['subgraph', X], ['clone'], ['reach', X]]
+                    mode = ('every', 'every', 'at')[variant]
+                    inp = {'naming': ('int', 'str', 'tuple', 'opaque')[(idx // nshards) % 4],
+                           'ops': ghist.interleave(edits, q, mode, (mask + order) % (len(edits) + 1))}
+                    st.evaluations += 1
+                    nt = len(edges) >= 2 and any(a != b for a, b in edges)
+                    if nt:
+                        st.nontrivial += 1
+                    st.bump('history n=%d' % n)
+                    if nt and (idx // nshards) % 211 == 0:
+                        st.sample(inp, cls='history-n%d' % n)
+                    f = check_history(inp)
+                    if f is not None and st.failure is None:
+                        st.failure = f
+                        return
+
+
+def history_random_shard(st, shard, nshards, payload):
+    from .. import ghist
+
+    def body(inp):
+        nq = sum(1 for op in inp['ops'] if op[0] in ('reach', 'reverse', 'subgraph', 'clone', 'fork'))
+        ne = sum(1 for op in inp['ops'] if op[0] in ('node', 'edge'))
+        nt = nq >= 2 and ne >= 3
+        st.random_case(inp, nt)
+        st.bump('random history: %d+ queries' % min(nq, 5))
+        if nt:
+            st.sample(inp, cls='random-history')
+        return check_history(inp)
+
+    strat = ghist.st_history(['reach', 'reach', 'reverse', 'subgraph', 'clone', 'fork', 'scc_of'], max_nodes=7, max_ops=40)
+    f = core.hyp_run(payload['seed'] * 1000 + 500 + shard, strat, body, payload['n'])
+    if f is not None:
+        st.failure = f
+
+
+def _minimise_history(f):
+    from .. import ghist
+    inp = dict(f.input)
+    ops = list(inp['ops'])
+    changed = True
+    while changed:
+        changed = False
+        for i in range(len(ops)):
+            cand = ops[:i] + ops[i + 1:]
+            if not ghist.valid_ops(cand):
+                continue
+            g = check_history(dict(inp, ops=cand))
+            if g is not None:
+                ops, f, changed = cand, g, True
+                break
+    return f
 
 
 def enum_shard(st, shard, nshards, payload):
@@ -174,7 +261,8 @@ def run(ctx):
                 'route per graph, chosen by index) x every node subset X (list/set/tuple) for '
                 'get_reachable_set_from and get_subgraph (also X with a non-node), plus reversal '
                 '(and double reversal) and clone with mutation on both sides; random digraphs to '
-                '12 nodes.  Oracle: definitions computed from the edge set; G snapshot before = '
+                '12 nodes; HISTORIES on one graph object (add_node / add_edge interleaved with reach, reverse, '
+                'subgraph, clone queries, continuing on a clone while the original must stay put).  Oracle: definitions computed from the edge set; G snapshot before = '
                 'after.  Non-trivial: reach adds a node to a proper non-empty X; subgraph cuts '
                 'at least one edge; reverse/clone on a graph with a non-loop edge.')
     ctx.scopes = ['all digraphs with n<=4 nodes x all node subsets']
@@ -187,6 +275,18 @@ def run(ctx):
     f = core.run_random(ctx, random_shard, 2000, 20000)
     if f is not None:
         ctx.violation(f)
+        return
+
+    # histories: the same graph OBJECT queried again after it grew
+    hp = {'scopes': [(0, 1), (1, 1), (2, 1), (3, 1), (4, 5 if ctx.thorough else 61)]}
+    ctx.scopes.append('histories: construction sequences (4 edit orders) of every digraph with n<=3 nodes and every '
+                      '%s with 4, with reach/reverse/subgraph/clone/fork queries after every edit or at one point'
+                      % ('5th' if ctx.thorough else '61st'))
+    f = core.run_sharded(ctx, history_shard, hp)
+    if f is None:
+        f = core.run_random(ctx, history_random_shard, 1600, 16000)
+    if f is not None:
+        ctx.violation(_minimise_history(f) if f.check == 'history' else f)
 
 
 def random_shard(st, shard, nshards, payload):
